@@ -55,11 +55,22 @@ def main():
             if k.startswith("suite_"):
                 meta["ran"].setdefault(k, v)
         meta["ran"]["check_rerun_after_strengthening"] = True
-    shutil.copyfile(patch, f"{out}/patch.diff")
-    shutil.copyfile(demo, f"{out}/demo.py")
+        if not needs:
+            meta["needs_to_manifest"] = old.get("needs_to_manifest", "")
+        if old.get("caught_by") is None and meta["caught_by"]:
+            meta["strengthened"] = "missed when first confirmed; caught after the check was strengthened"
+        elif "strengthened" in old:
+            meta["strengthened"] = old["strengthened"]
+
+    def copy(src, dst):
+        if os.path.abspath(src) != os.path.abspath(dst):
+            shutil.copyfile(src, dst)
+
+    copy(patch, f"{out}/patch.diff")
+    copy(demo, f"{out}/demo.py")
     md = patch.replace(".diff", ".md")
     if os.path.exists(md):
-        shutil.copyfile(md, f"{out}/notes.md")
+        copy(md, f"{out}/notes.md")
     json.dump(meta, open(f"{out}/meta.json", "w"), indent=1)
     ok = (meta["ran"]["demo_without_change_exit"] == 0 and meta["ran"]["demo_with_change_exit"] != 0
           and meta["ran"].get("suite_exit", 0 if no_suite else 1) == 0)
